@@ -41,6 +41,7 @@ struct __attribute__((packed)) inputs
     uint32_t hs_flags;
     uint32_t outlen, outsize;
     uint8_t pskChosen, pskHasParams, callerAlertDesc, fragPending;
+    uint32_t k;              /* ghost index into the delivered plaintext */
     uint32_t pskMaxEarly;
     unsigned char buf[BUFN];
 };
@@ -64,7 +65,7 @@ static struct { unsigned char *inp; uint32 len, remaining, reqLen; int32 error; 
 static uint32 g_size;
 
 /* ghosts, one object */
-static struct { int dec_calls, dec_ok, dec_failed, alert_encoded, hs_calls; uint32_t flags_at_entry; uint8_t hsstate_at_entry; } gh;
+static struct { int dec_calls, dec_ok, dec_failed, alert_encoded, hs_calls; uint32_t flags_at_entry; uint8_t hsstate_at_entry; uint32_t dec_off; } gh;
 #define gh_dec_calls gh.dec_calls
 #define gh_dec_ok gh.dec_ok
 #define gh_dec_failed gh.dec_failed
@@ -72,10 +73,12 @@ static struct { int dec_calls, dec_ok, dec_failed, alert_encoded, hs_calls; uint
 #define gh_hs_calls gh.hs_calls
 #define gh_flags_at_entry gh.flags_at_entry
 #define gh_hsstate_at_entry gh.hsstate_at_entry
+#define gh_dec_off gh.dec_off
 
 static int32 model_decrypt(void *ssl, unsigned char *ct, unsigned char *pt, uint32 len)
 {
     gh_dec_calls++;
+    gh_dec_off = (uint32_t) (ct - g_buf);   /* in-situ: the plaintext of this record starts here */
     if (len < 16 || g_in.prim_fail)
     {
         gh_dec_failed = 1;
